@@ -23,7 +23,7 @@ WORLDS = {
 
 _ASSUME_COMMON = [
     "sampling, not proof: a clean batch is evidence for the explored seeds only",
-    "goroutine choice is controlled at harness seams (L1) and, where stated, at lock acquisitions (L2); finer interleavings are out of reach",
+    "goroutine choice is controlled at harness seams (L1), where stated at lock acquisitions / releases (L2), and at the receive-only select statements of the instrumented dskit files (L3: which ready case proceeds); finer interleavings are out of reach",
     "single virtual clock (testing/synctest bubble); no per-node clock skew",
 ]
 
@@ -47,7 +47,7 @@ PROPS["C11"] = {
     "stub": ["replicas (call tasks parked; outcome chosen by the scheduler; may answer after their context was cancelled)", "caller context", "zone sorter (harness order) in part of the runs"],
     "assumptions": _ASSUME_COMMON + ["tolerances are in [0, size-1] (degenerate tolerances >= size are excluded: the code documents them as misconfiguration)", "legacy ReplicationSet.Do: only results-from-successes, criterion-at-return, error rule and delayed extra requests are checked (it documents 'all results from f' and has no cleanup hook)"],
     "level_text": "seeded exploration of outcomes, completion orders, hedging-clock positions and cancellation points of the real quorum-read executors against a criterion/cleanup/context model evaluated at every quiescent point; sampling, not proof",
-    "level_note": "trusted: simulator engine and the quorum model written from the statement; select among simultaneously ready channels inside dskit is decided by the Go runtime (oracles accept either branch)",
+    "level_note": "trusted: simulator engine and the quorum model written from the statement; receive-only select statements of ring/replication_set.go and replication_set_tracker.go are compiled from generated copies that ask the simulator which ready case proceeds (tools/vtool sel); goroutines started together inside dskit still draw from the global math/rand in runtime order (multi-set variant), oracles accept either order",
     "design_ref": "DESIGN.md section 5 C11",
 }
 
@@ -56,7 +56,7 @@ PROPS["C17"] = {
     "rule": "one evaluation = one simulated history of a BasicService / idle / timer service (scenario 'service') or of a Manager over 1..3 services with listener, waiters and FailureWatcher (scenario 'manager'): client operations, function outcomes, cancellations and the interleaving at every client call, callback and state-mutex acquisition are drawn from the choice vector; non-trivial = lock-point yields were exercised and a stop/cancel/failure interleaved with the life cycle; distinct = distinct released-task/action sequence hash among non-trivial runs",
     "real": ["services.BasicService", "services.NewIdleService/NewTimerService", "services.Manager", "services.FailureWatcher", "services.NewListener/NewManagerListener"],
     "stub": ["starting/running/stopping functions (parked tasks, outcome chosen by the scheduler)", "listener callbacks (tasks)", "client goroutines"],
-    "assumptions": _ASSUME_COMMON + ["L2: services/basic_service.go, manager.go, failure_watcher.go are compiled from generated copies in which every Lock/RLock statement is preceded by a scheduler yield (TryLock spin); interleavings between two plain statements are not split", "listener callbacks never block forever (they are released by the scheduler)"],
+    "assumptions": _ASSUME_COMMON + ["L2: services/basic_service.go, manager.go, failure_watcher.go are compiled from generated copies in which every Lock/RLock statement is preceded by a scheduler yield (TryLock spin) and every Unlock statement / deferred unlock is followed by one; their receive-only select statements ask the simulator which ready case proceeds; interleavings between two plain statements are not split", "listener callbacks never block forever (they are released by the scheduler)"],
     "level_text": "seeded exploration of client/callback/lock-acquisition interleavings of the real service and manager code against a reference state machine (edges, function order, waiters, listener sequences, manager health) checked at every quiescent point; sampling, not proof",
     "level_note": "trusted: simulator engine, reference state machine written from the statement, the syntactic lock-point rewriter (tools/vtool)",
     "design_ref": "DESIGN.md section 5 C17",
